@@ -65,3 +65,15 @@ ENTRY["monitor_sigs"] = ENTRY["monitor_sigs"] + [m for m in _ks.MONITOR_SIGS if 
 ENTRY["trusted_base"] = ENTRY["trusted_base"] + _ks.TRUSTED_BASE
 ENTRY["assumptions"] = ENTRY["assumptions"] + _ks.ASSUMPTIONS
 ENTRY["level_text"] += _ks.LEVEL_TEXT
+
+# Fifth session: the DECISION LOGIC of signature verification — cluster/definition.go Definition.VerifySignatures (+ eip712sigs.go,
+# helpers.go verifySig), cluster/lock.go Lock.VerifySignatures (aggregate over all public shares, node signatures since v1.7,
+# builder registration presence) and cluster/distvalidator.go: Model/LockSigs.lean (symbolic signatures), theorems
+# Props/C12LockSigs.lean, stream locksigs (real VerifySignatures / VerifyHashes over every version v1.0-v1.11, real keys).
+from vlib import snippet_C12locksigs as _ls
+ENTRY["streams"] = ENTRY["streams"] + [_ls.STREAM]
+ENTRY["lean_props_extra"].append(_ls.EXTRA_LEAN)
+ENTRY["monitor_sigs"] = ENTRY["monitor_sigs"] + [m for m in _ls.MONITOR_SIGS if m not in ENTRY["monitor_sigs"]]
+ENTRY["trusted_base"] = ENTRY["trusted_base"] + _ls.TRUSTED_BASE
+ENTRY["assumptions"] = ENTRY["assumptions"] + _ls.ASSUMPTIONS
+ENTRY["level_text"] += _ls.LEVEL_TEXT
